@@ -24,6 +24,7 @@ import (
 	"fmt"
 	"hash/fnv"
 	"runtime"
+	"runtime/debug"
 	"sort"
 	"strings"
 	"sync"
@@ -168,6 +169,14 @@ type Sched struct {
 	Sites     map[uintptr]int
 
 	BgPanics []string
+	Panics   []TaskPanic // every task function that ended with a panic (not Goexit)
+}
+
+// TaskPanic describes a panic that ended a task.
+type TaskPanic struct {
+	Task  string
+	Value string
+	Stack string
 }
 
 // NewSched installs a scheduler for the current bubble. choose(n,label) must
@@ -274,12 +283,17 @@ func (s *Sched) spawn(name string, background bool, fn func()) *Task {
 		s.mu.Unlock()
 		defer func() {
 			r := recover()
+			var stack []byte
+			if r != nil {
+				stack = debug.Stack()
+			}
 			s.mu.Lock()
 			if r != nil {
 				t.Panic = r
 				if background {
 					s.BgPanics = append(s.BgPanics, fmt.Sprintf("%s: %v", t, r))
 				}
+				s.Panics = append(s.Panics, TaskPanic{Task: t.String(), Value: fmt.Sprint(r), Stack: string(stack)})
 			}
 			t.state = stDone
 			delete(s.byG, g)
@@ -641,6 +655,15 @@ func (s *Sched) findDeadlockLocked() *SchedError {
 		}
 	}
 	return nil
+}
+
+// TakePanics returns and clears the recorded task panics.
+func (s *Sched) TakePanics() []TaskPanic {
+	s.mu.Lock()
+	defer s.mu.Unlock()
+	p := s.Panics
+	s.Panics = nil
+	return p
 }
 
 // Teardown makes every task exit at its next seam operation and waits (on the
